@@ -264,6 +264,8 @@ def main():
                 m = ('ignored',)      # the marker is lower-case `cython:` in the documentation
             if name == 'language_level' and m[0] == 'ok' and value.strip() not in ('2', '3', '3str'):
                 m = ('unspecified',)
+            if name == 'c_string_type' and m[0] == 'ok' and m[1] == 'str':
+                m = ('unspecified',)      # needs c_string_encoding as well: the compiler may reject it with a positioned error
             expect_error = m[0] == 'ValueError'
         else:
             # a directive used in a scope its directive_scopes entry does not allow must be rejected
